@@ -385,6 +385,31 @@ impl World {
             }
         }
 
+        let fpool_bal = geti(dep, "fpool_bal", 0);
+        if fpool_bal > 0 {
+            if native {
+                app.execute(
+                    Addr::unchecked("bank"),
+                    CosmosMsg::Bank(BankMsg::Send {
+                        to_address: fpool.to_string(),
+                        amount: vec![Coin::new(fpool_bal as u128, denom.clone())],
+                    }),
+                )
+                .unwrap();
+            } else {
+                app.execute_contract(
+                    owner.clone(),
+                    token.clone(),
+                    &Cw20ExecuteMsg::Mint {
+                        recipient: fpool.to_string(),
+                        amount: u(fpool_bal),
+                    },
+                    &[],
+                )
+                .unwrap();
+            }
+        }
+
         // vAMMs
         let default_vamms = json!([{}]);
         let vlist = dep
@@ -400,7 +425,8 @@ impl World {
             let base_asset = match i {
                 0 => "ETH",
                 1 => "BTC",
-                _ => "SOL",
+                2 => "SOL",
+                _ => "ADA",
             };
             let vaddr = app
                 .instantiate_contract(
@@ -540,7 +566,8 @@ impl World {
         match vamm {
             "vamm1" => "ETH",
             "vamm2" => "BTC",
-            _ => "SOL",
+            "vamm3" => "SOL",
+            _ => "ADA",
         }
     }
 
@@ -770,7 +797,7 @@ impl World {
             let owner = find_json(&raw, b"owner").unwrap_or(Value::Null);
             let mut rounds = Map::new();
             let pre = lp(b"prices");
-            for key in ["ETH", "BTC", "SOL"].iter() {
+            for key in ["ETH", "BTC", "SOL", "ADA"].iter() {
                 let mut k = pre.clone();
                 k.extend_from_slice(key.as_bytes());
                 let arr = find_json(&raw, &k).unwrap_or(json!([]));
@@ -792,7 +819,7 @@ impl World {
             post.insert(
                 "feed".into(),
                 json!({"kind": "mock", "owner": self.nm(cfg["owner"].as_str().unwrap_or("")),
-                       "price": price, "rounds": {"ETH": [], "BTC": [], "SOL": []}}),
+                       "price": price, "rounds": {"ETH": [], "BTC": [], "SOL": [], "ADA": []}}),
             );
         }
 
@@ -806,7 +833,7 @@ impl World {
         for c in ["engine", "ifund", "fpool", "feed", "token"].iter() {
             bal.insert(c.to_string(), json!(self.balance(c)));
         }
-        for v in ["vamm1", "vamm2", "vamm3"].iter() {
+        for v in ["vamm1", "vamm2", "vamm3", "vamm4"].iter() {
             bal.insert(v.to_string(), json!(if self.vamms.contains(&v.to_string()) { self.balance(v) } else { 0 }));
         }
         post.insert("bal".into(), Value::Object(bal));
